@@ -8,6 +8,24 @@ S = 'cylc.flow.task_state:TaskState.'
 T = 'cylc.flow.task_proxy:TaskProxy.'
 ALLP = ['C03', 'C09', 'C11', 'C26', 'C32', 'C06']
 
+
+@spec
+def rank(s):
+    """position in the lifecycle order (cylc.flow.task_state.TASK_STATUSES_ORDERED)"""
+    return (0 if s == 'waiting' else 1 if s == 'expired' else 2 if s == 'preparing'
+            else 3 if s == 'submit-failed' else 4 if s == 'submitted' else 5 if s == 'running'
+            else 6 if s == 'failed' else 7 if s == 'succeeded' else -1)
+
+
+@spec
+def is_status(s):
+    return rank(s) >= 0
+
+
+# type invariant of TaskState.status: one of the eight task statuses (assumed at every read,
+# proved at every write in a function under verification: TaskState.reset requires it of its argument)
+schema('TaskState', 'cylc.flow.task_state:TaskState', fields={}, field_inv={'status': 'is_status(v)'})
+
 contract('cylc.flow.wallclock:get_current_time_string',
          sorts={'result': 'str'}, assumed=True, pure=True, props=ALLP, note='wall clock (A-CLOCK)')
 
@@ -26,6 +44,7 @@ _FLAGS = ('is_held', 'is_queued', 'is_runahead')
 contract(S + 'reset',
          sorts={'self': 'TaskState', 'status': 'opt[str]', 'is_held': 'opt[bool]',
                 'is_queued': 'opt[bool]', 'is_runahead': 'opt[bool]', 'forced': 'bool', 'result': 'bool'},
+         requires=['status is None or is_status(status)'],
          ensures={
              # forced changes never yield an active state ("never puts the task into submitted/running")
              'forced-never-active':
@@ -61,10 +80,11 @@ contract(T + 'state_reset',
          sorts={'self': 'TaskProxy', 'status': 'opt[str]', 'is_held': 'opt[bool]',
                 'is_queued': 'opt[bool]', 'is_runahead': 'opt[bool]', 'silent': 'bool', 'forced': 'bool',
                 'result': 'bool', 'before': 'str'},
+         requires=['status is None or is_status(status)'],
          ensures={
              # "expired only ... never submits": an expired task leaves the queue and the runahead pool
              'expired-clears-queue-flags':
-                 'implies(status == "expired" and result, '
+                 'implies(status == "expired", '
                  'not self.state.is_queued and not self.state.is_runahead)',
              'forced-never-active':
                  'implies(forced and (status == "submitted" or status == "running"), '
@@ -79,6 +99,17 @@ contract(T + 'state_reset',
                  'or self.state.is_runahead != old(self.state.is_runahead))',
              'held-flag': 'implies(not (forced and (status == "submitted" or status == "running")), '
                           'is_held is None or self.state.is_held == is_held)',
+             'unrequested-values-kept':
+                 '(status is not None or self.state.status == old(self.state.status)) '
+                 'and (is_held is not None or self.state.is_held == old(self.state.is_held)) '
+                 'and (is_queued is not None or status == "expired" '
+                 'or self.state.is_queued == old(self.state.is_queued)) '
+                 'and (is_runahead is not None or status == "expired" '
+                 'or self.state.is_runahead == old(self.state.is_runahead))',
+             'queue-flags-taken':
+                 'implies(not (forced and (status == "submitted" or status == "running")), '
+                 '(is_queued is None or status == "expired" or self.state.is_queued == is_queued) '
+                 'and (is_runahead is None or status == "expired" or self.state.is_runahead == is_runahead))',
          },
          modifies=['self.state.status', 'self.state.is_held', 'self.state.is_queued',
                    'self.state.is_runahead', 'self.state.time_updated', 'self.state.is_updated',
